@@ -41,7 +41,6 @@ package goja
 //@   requires m != nil && key != nil && specMapEndsOK(m)
 //@   requires @linksFwd
 //@   requires @linksBack
-//@   ensures specMapEndsOK(m) [ends]
 //@   ensures @linksFwd [links-forward]
 //@   ensures @linksBack [links-backward]
 //@   ensures result ==> m.size == old(m.size)-1 [size]
@@ -49,7 +48,7 @@ package goja
 
 //@ func (*orderedMapIter).next
 //@   props C18
-//@   requires iter != nil && (iter.m == nil || specMapEndsOK(iter.m))
+//@   requires iter != nil && (iter.m == nil || specMapEndsOK(iter.m)) && (iter.m == nil ==> iter.cur == nil)
 //@   requires @linksFwd
 //@   loop 1 vars cur *mapEntry
 //@   loop 1 invariant true [walk-back]
@@ -61,3 +60,17 @@ package goja
 //@   requires iter != nil
 //@   ensures iter.m == nil && iter.cur == nil [closed]
 //@   assigns iter.m, iter.cur
+
+//@ func (*orderedMap).clear
+//@   props C18
+//@   requires m != nil && specMapEndsOK(m)
+//@   requires @linksFwd
+//@   requires @linksBack
+//@   loop 1 vars item *mapEntry
+//@   loop 1 invariant @linksFwd [links-forward]
+//@   loop 1 invariant forall e *mapEntry :: e != nil && e != item && e.key != nil && e.iterPrev != nil ==> e.iterPrev.iterNext == e && e.iterPrev.key != nil [links-backward-except-current]
+//@   loop 1 invariant item == nil || item.key != nil [current-is-live]
+//@   loop 1 invariant item != nil && item.iterPrev != nil ==> item.iterPrev.key == nil [prev-of-current-is-dead]
+//@   ensures m.iterFirst == nil && m.iterLast == nil && m.size == 0 [emptied]
+//@   ensures @linksFwd [links-forward]
+//@   ensures @linksBack [links-backward]
